@@ -1089,9 +1089,9 @@ static void write_schema_element(thrift_encoder_t* enc, const parquet_schema_ele
     }
 
     /* Field 4: name */
-    if (elem->name) {
+    {
         thrift_write_field_header(enc, THRIFT_TYPE_BINARY, 4);
-        thrift_write_string(enc, elem->name);
+        thrift_write_string(enc, elem->name ? elem->name : "");  /* name is a required field */
     }
 
     /* Field 5: num_children */
